@@ -206,7 +206,7 @@ pub mod lock {
 
 // re-export of internals for differential tests
 pub use crate::sync::atomic_dur::AtomicDuration;
-pub use crate::timeout_list::{TimeOutList, TimerThread};
+pub use crate::timeout_list::{TimeOutList, TimeoutHandle as TimeoutHandleOf, TimerThread};
 
 /// `crossbeam::queue::SegQueue` look-alike whose operations are hooked (one schedule point each)
 pub struct SegQueue<T>(crossbeam::queue::SegQueue<T>);
